@@ -6,12 +6,14 @@ import (
 	"time"
 
 	"github.com/alicebob/miniredis/v2"
+	mrserver "github.com/alicebob/miniredis/v2/server"
 	"github.com/redis/go-redis/v9"
 
 	"github.com/istio-ecosystem/authservice/internal/vn"
 )
 
 func init() {
+	verifHarnesses["VerifRedisCommandFailureIsReported"] = VerifRedisCommandFailureIsReported
 	verifHarnesses["VerifC10_RedisTimeouts"] = VerifC10_RedisTimeouts
 	verifHarnesses["VerifC10_RedisExpiryFormula"] = VerifC10_RedisExpiryFormula
 }
@@ -40,6 +42,22 @@ type symRedis struct {
 	keys map[string]*symHash
 	now  func() time.Time
 	log  []symRedisCmd
+	// fault injection: when armed, the command with index failAt (and only that one) fails
+	// before taking effect
+	armed  bool
+	failAt int
+	count  int
+	failed bool
+}
+
+func (r *symRedis) fails() bool {
+	i := r.count
+	r.count++
+	if r.armed && i == r.failAt {
+		r.failed = true
+		return true
+	}
+	return false
 }
 
 func newSymRedis(now func() time.Time) *symRedis {
@@ -67,9 +85,17 @@ func (r *symRedis) ensure(key string) *symHash {
 	return h
 }
 
-func (r *symRedis) Ping(ctx context.Context) *redis.StatusCmd { return redis.NewStatusResult("PONG", nil) }
+func (r *symRedis) Ping(ctx context.Context) *redis.StatusCmd {
+	if r.fails() {
+		return redis.NewStatusResult("", errRedisInjected)
+	}
+	return redis.NewStatusResult("PONG", nil)
+}
 
 func (r *symRedis) HSet(ctx context.Context, key string, values ...interface{}) *redis.IntCmd {
+	if r.fails() {
+		return redis.NewIntResult(0, errRedisInjected)
+	}
 	h := r.ensure(key)
 	n := int64(0)
 	for i := 0; i+1 < len(values); i += 2 {
@@ -82,6 +108,9 @@ func (r *symRedis) HSet(ctx context.Context, key string, values ...interface{}) 
 }
 
 func (r *symRedis) HMSet(ctx context.Context, key string, values ...interface{}) *redis.BoolCmd {
+	if r.fails() {
+		return redis.NewBoolResult(false, errRedisInjected)
+	}
 	h := r.ensure(key)
 	if len(values) == 1 {
 		if m, ok := values[0].(map[string]interface{}); ok {
@@ -95,6 +124,9 @@ func (r *symRedis) HMSet(ctx context.Context, key string, values ...interface{})
 }
 
 func (r *symRedis) HSetNX(ctx context.Context, key, field string, value interface{}) *redis.BoolCmd {
+	if r.fails() {
+		return redis.NewBoolResult(false, errRedisInjected)
+	}
 	h := r.ensure(key)
 	if _, ok := h.fields[field]; ok {
 		return redis.NewBoolResult(false, nil)
@@ -105,6 +137,9 @@ func (r *symRedis) HSetNX(ctx context.Context, key, field string, value interfac
 }
 
 func (r *symRedis) HDel(ctx context.Context, key string, fields ...string) *redis.IntCmd {
+	if r.fails() {
+		return redis.NewIntResult(0, errRedisInjected)
+	}
 	h := r.live(key)
 	n := int64(0)
 	if h != nil {
@@ -122,6 +157,11 @@ func (r *symRedis) HDel(ctx context.Context, key string, fields ...string) *redi
 }
 
 func (r *symRedis) HMGet(ctx context.Context, key string, fields ...string) *redis.SliceCmd {
+	if r.fails() {
+		cmd := redis.NewSliceCmd(ctx, "hmget", key)
+		cmd.SetErr(errRedisInjected)
+		return cmd
+	}
 	args := []interface{}{"hmget", key}
 	for _, f := range fields {
 		args = append(args, f)
@@ -140,6 +180,9 @@ func (r *symRedis) HMGet(ctx context.Context, key string, fields ...string) *red
 }
 
 func (r *symRedis) HGet(ctx context.Context, key, field string) *redis.StringCmd {
+	if r.fails() {
+		return redis.NewStringResult("", errRedisInjected)
+	}
 	if h := r.live(key); h != nil {
 		if v, ok := h.fields[field]; ok {
 			switch x := v.(type) {
@@ -154,6 +197,9 @@ func (r *symRedis) HGet(ctx context.Context, key, field string) *redis.StringCmd
 }
 
 func (r *symRedis) Del(ctx context.Context, keys ...string) *redis.IntCmd {
+	if r.fails() {
+		return redis.NewIntResult(0, errRedisInjected)
+	}
 	n := int64(0)
 	for _, k := range keys {
 		if r.live(k) != nil {
@@ -166,6 +212,9 @@ func (r *symRedis) Del(ctx context.Context, keys ...string) *redis.IntCmd {
 }
 
 func (r *symRedis) ExpireAt(ctx context.Context, key string, tm time.Time) *redis.BoolCmd {
+	if r.fails() {
+		return redis.NewBoolResult(false, errRedisInjected)
+	}
 	r.log = append(r.log, symRedisCmd{name: "EXPIREAT", key: key, at: tm})
 	h := r.live(key)
 	if h == nil {
@@ -183,6 +232,7 @@ type kitRedis struct {
 	store SessionStore
 	model *symRedis          // symbolic runs
 	mr    *miniredis.Miniredis // native replays
+	nativeFailed bool
 	abs   time.Duration
 	idle  time.Duration
 }
@@ -366,4 +416,67 @@ func VerifC10_RedisExpiryFormula() {
 		want = idleAt
 	}
 	vn.Assert("C10/redis-expiry-formula", at.Equal(want.Truncate(time.Second)))
+}
+
+// armFault makes the k-th Redis command from now on fail (model: the command returns an error
+// before taking effect; natively: a miniredis pre-hook answers that command with an error).
+func (k *kitRedis) armFault(at int) {
+	if k.model != nil {
+		k.model.armed, k.model.failAt, k.model.count, k.model.failed = true, at, 0, false
+		return
+	}
+	n := 0
+	k.nativeFailed = false
+	k.mr.Server().SetPreHook(func(p *mrserver.Peer, cmd string, args ...string) bool {
+		i := n
+		n++
+		if i == at {
+			k.nativeFailed = true
+			p.WriteError("ERR injected fault")
+			return true
+		}
+		return false
+	})
+}
+
+func (k *kitRedis) faultHappened() bool {
+	if k.model != nil {
+		return k.model.failed
+	}
+	return k.nativeFailed
+}
+
+// VerifRedisCommandFailureIsReported: whichever single Redis command of a store operation fails,
+// the operation reports an error (the handler's fail-closed behaviour and "logout reports an
+// error when the session cannot be removed" rest on this).
+func VerifRedisCommandFailureIsReported() {
+	k := kitRedisStore()
+	defer k.close()
+	ctx := context.Background()
+	sid := vn.StringIn("sid", 3, alphaID)
+	vn.Assume(len(sid) > 0)
+	idTok := vn.JWT("id", true, 0, "", 0, "", "", vn.Time("exp"), true)
+	// an existing session with tokens and login state
+	vn.Assert("kit/seed-tokens", k.store.SetTokenResponse(ctx, sid, &TokenResponse{IDToken: idTok, AccessToken: "a", RefreshToken: "r"}) == nil)
+	vn.Assert("kit/seed-state", k.store.SetAuthorizationState(ctx, sid, &AuthorizationState{State: "s", Nonce: "n", RequestedURL: "u", CodeVerifier: "v"}) == nil)
+	k.armFault(vn.Choice("failing-command", vn.Bound("redis-commands-per-operation", 8)))
+	var err error
+	switch vn.Choice("operation", 6) {
+	case 0:
+		err = k.store.SetTokenResponse(ctx, sid, &TokenResponse{IDToken: idTok})
+	case 1:
+		_, err = k.store.GetTokenResponse(ctx, sid)
+	case 2:
+		err = k.store.SetAuthorizationState(ctx, sid, &AuthorizationState{State: "s2", Nonce: "n", RequestedURL: "u", CodeVerifier: "v"})
+	case 3:
+		_, err = k.store.GetAuthorizationState(ctx, sid)
+	case 4:
+		err = k.store.ClearAuthorizationState(ctx, sid)
+	default:
+		err = k.store.RemoveSession(ctx, sid)
+	}
+	if k.faultHappened() {
+		vn.Cover("redis/command-failed", true)
+		vn.Assert("redis/command-failure-is-reported", err != nil)
+	}
 }
